@@ -373,9 +373,13 @@ class Inference(Serializable):
                 logger=self._logger
             )
 
+        # all start points share the key order of x0: the result vector is labelled with those keys below
+        keys = list(self.x0.keys())
+        samples = [self._sample() for _ in range(self.n_runs - 1)]
+
         results = parallelize(
             func=run_sample,
-            data=[self.x0] + [self._sample() for _ in range(self.n_runs - 1)],
+            data=[self.x0] + [{key: sample[key] for key in keys} for sample in samples],
             parallelize=self.parallelize,
             pbar=self.pbar,
             desc='Optimizing',
